@@ -48,7 +48,12 @@ PROVED = {
  "C10": ("Theorems over all call sequences, states, specifications and destination scripts: every call only appends to the delivered bytes (prefix "
          "of the final output); a successful call with no known-size master open leaves the working buffer empty; a call after which a known-size "
          "master is open delivered nothing; buffering never touches the destination; flush()/into_inner() close every master and empty the buffer. "
-         "That the delivered bytes parse to the tags written so far is checked by correspondence (destination snapshots parsed by the real iterator).", ""),
+         "Snapshots (Proofs/Snapshots.v): after the calls that write a conforming document up to any point with only unknown-size masters open, the "
+         "destination holds exactly the encoding of everything written so far (C10_snapshot_bytes_partial) and the strict reader parses it to exactly the "
+         "tags written so far followed by the Ends of the open masters, innermost first (C10_snapshot_parses_partial / _tags_partial); with a known-size "
+         "master open it holds exactly what precedes the outermost such master, and that parses likewise (C10_snapshot_held_partial). PARTIAL: one call per "
+         "tag, accepting destination, placeholder-free paths; Full items, write scripts and rejected calls in between are covered by the correspondence "
+         "run (destination snapshots after every call parsed by the real iterator).", ""),
  "C04": ("Theorem C04_refines: for every configuration, input, initial capacity (0 included), every read script in which the source never returns "
          "Ok(0) before the end and never fails, and every next()/try_recover() sequence, the buffered machine (window, capacity, compaction-free "
          "refill loop) yields exactly the run of the abstract reader Pure.v on the input; hence identical items/offsets/errors for any two chunkings "
